@@ -6,7 +6,7 @@
    later in the list, a timer may run long after it woke up (also after it was cancelled meanwhile).
    `Inv` (Proofs.v) holds in every reachable state (C10_invariant).  Examples.v (imported so that it is
    re-checked) replays the defects of the code before the fix on variant Legacy. *)
-From CF Require Import Common.Bytes C10.Model C10.Proofs C10.Proofs_b C10.Proofs_c C10.Proofs_e C10.Proofs_f C10.Lock C10.DriverClose C10.CloseSteps C10.Examples.
+From CF Require Import Common.Bytes C10.Model C10.Proofs C10.Proofs_b C10.Proofs_c C10.Proofs_e C10.Proofs_f C10.Lock C10.DriverClose C10.CloseSteps C10.FirstPacket C10.Header C10.Examples.
 Open Scope Z_scope.
 
 (* Every reachable state: patterns are distinct keys; each pending pattern has a live (armed or
@@ -325,3 +325,51 @@ Theorem C10_kept_queue_refuted :
   q_frames (qrun FreshQueues qinit ops) = [(1, 1, Some 1)].
 Proof. exact kept_queue_refuted. Qed.
 Print Assumptions C10_kept_queue_refuted.
+
+(* ---- the packet_received callbacks and the FIRST packet of a session (C10/FirstPacket.v, CopyIter = the code) ---- *)
+(* Caller.call goes over a copy: every callback registered when the packet arrives is called, once, in order, whatever
+   removes itself meanwhile — so the answer check sees EVERY received packet, the first of a session included ... *)
+Theorem C10_answer_check_sees_every_packet : forall l, In CbCheck l -> In CbCheck (fst (dispatch_all CopyIter l)).
+Proof. exact answer_check_sees_every_packet. Qed.
+Print Assumptions C10_answer_check_sees_every_packet.
+
+(* ... in particular on a NEW Crazyflie object, whose list is [initial-packet callback; answer check; listeners]: the first
+   packet is seen by the answer check and the initial-packet callback has removed itself afterwards. *)
+Theorem C10_first_packet_of_first_session : forall (listeners : list pcb) (others : list Z),
+  In CbCheck (fst (dispatch_all CopyIter (new_object listeners))) /\
+  ~ In CbInitial (snd (dispatch_all CopyIter (new_object (map CbOther others)))).
+Proof. exact first_packet_of_first_session. Qed.
+Print Assumptions C10_first_packet_of_first_session.
+
+(* iterating the live list (seeded C10-n) is refuted: on a new object the first packet skips the answer check; a later
+   session of the same object (callback re-added at the end) hides it *)
+Theorem C10_live_iteration_refuted :
+  fst (dispatch_all LiveIter (new_object [CbOther 1])) = [CbInitial; CbOther 1] /\
+  fst (dispatch_all CopyIter (new_object [CbOther 1])) = [CbInitial; CbCheck; CbOther 1] /\
+  fst (dispatch_all LiveIter (add_cb CbInitial [CbCheck; CbOther 1])) = [CbCheck; CbOther 1; CbInitial].
+Proof. exact live_iteration_skips_answer_check. Qed.
+Print Assumptions C10_live_iteration_refuted.
+
+(* ---- the header of a received packet (C10/Header.v) ---- *)
+(* Drivers build received packets as CRTPPacket(raw, payload); the constructor normalises the header (raw | 0x0C): for all
+   256 raw bytes it is the header the library builds for the same port and channel ... *)
+Theorem C10_received_header_normalised : forall raw, 0 <= raw < 256 ->
+  hdr_attr raw = crtp_header (crtp_port raw) (crtp_chan raw) /\ hdr_attr raw = Z.lor raw 12.
+Proof. exact received_header_normalised. Qed.
+Print Assumptions C10_received_header_normalised.
+
+(* ... so the answer check matches on port, channel and leading bytes only: a reply with the request's port/channel and the
+   expected leading bytes has the request's pattern as a prefix whatever the two reserved bits were on the wire. *)
+Theorem C10_reply_matches_whatever_reserved_bits : forall raw raw' exp rest, 0 <= raw < 256 -> 0 <= raw' < 256 ->
+  crtp_port raw = crtp_port raw' -> crtp_chan raw = crtp_chan raw' ->
+  is_prefix (hdr_attr raw :: exp) (hdr_attr raw' :: exp ++ rest) = true.
+Proof. exact reply_matches_whatever_reserved_bits. Qed.
+Print Assumptions C10_reply_matches_whatever_reserved_bits.
+
+(* keeping the raw byte in the constructor (seeded C10-o) is refuted: reply 0x91 vs request header 0x9D *)
+Theorem C10_raw_header_kept_refuted :
+  crtp_port 145 = crtp_port 157 /\ crtp_chan 145 = crtp_chan 157 /\
+  is_prefix (hdr_attr 157 :: [7]) (raw_kept 145 :: [7; 1]) = false /\
+  is_prefix (hdr_attr 157 :: [7]) (hdr_attr 145 :: [7; 1]) = true.
+Proof. exact raw_header_kept_refuted. Qed.
+Print Assumptions C10_raw_header_kept_refuted.
